@@ -611,7 +611,36 @@ def rule_if_merge(run):
     c03.rule_if_merge(run)
 
 
-RULES = [rule_transitions, rule_states, rule_edges, rule_fail_closed, rule_loop_state, rule_clock_costs, rule_if_merge, rule_straight_line, rule_with_exit, rule_return_paths, rule_empty_block, rule_call_and_await, rule_state_root, rule_not_a_return, rule_at_start, rule_sequencing]
+def rule_reset_after_lowering(run):
+    """The state signal of a coroutine comes into existence when the Statemachine is lowered to case/when; the set of
+    signals a reset_context marker resets is collected by _pushed_resettable_signals() from the statements of the
+    context.  Collected before the lowering, the state signal is not in the set: a reset leaves the coroutine mid-body."""
+    run.begin("C01.n", "Sequential.__init__ collects the resettable signals after the state machines are lowered (the state signal is one of them)", floor=1)
+    rp = run.idx.mod("cohdl/_core/_ir/_repr.py")
+    init = rp.func("Sequential.__init__")
+    lower = None
+    for q, f in rp.functions.items():
+        if q.startswith("Sequential.__init__.<locals>.") and any(isinstance(c.func, ast.Attribute) and c.func.attr == "as_case_when" for c in calls_in(f.node)):
+            lower = f.node.name
+    if lower is None:
+        raise AnalysisError("anchor vanished: lowering of Statemachine in Sequential.__init__")
+    order = []
+    for c in walk_ordered(init.node):
+        if isinstance(c, ast.Call) and isinstance(c.func, ast.Attribute):
+            if c.func.attr == "visit" and c.args and dotted(c.args[0]) == lower:
+                order.append(("lower", c.lineno))
+            elif c.func.attr == "_pushed_resettable_signals":
+                order.append(("collect", c.lineno))
+    kinds = [k for k, _ in order]
+    if "lower" not in kinds or "collect" not in kinds:
+        raise AnalysisError("anchor vanished: lowering visit / _pushed_resettable_signals() in Sequential.__init__")
+    ok = kinds.index("lower") < kinds.index("collect")
+    run.ob(ok, "Sequential.__init__", file=rp.rel, line=dict(order)["collect"], detail="collect-after-lowering",
+           expected=f"code.visit({lower}) precedes self._pushed_resettable_signals()", found="ok" if ok else "resettable signals are collected before the state signal exists: reset does not restart the coroutine")
+    run.end()
+
+
+RULES = [rule_transitions, rule_states, rule_edges, rule_fail_closed, rule_loop_state, rule_clock_costs, rule_if_merge, rule_straight_line, rule_with_exit, rule_return_paths, rule_empty_block, rule_call_and_await, rule_state_root, rule_not_a_return, rule_at_start, rule_sequencing, rule_reset_after_lowering]
 LEVEL = "other"
 EXPLANATION = (
     "Only the structural core of the coroutine->state-machine translation is decided: transitions are front-inserted "
